@@ -63,23 +63,31 @@ def violation(text, root):
     # invented text: '(content missing)' may only stand in for a footnote whose content really is missing. When the text
     # has exactly one reference and exactly one block for a marker, the block's content belongs in that note.
     refs = Counter(re.findall(r'\{\{FOOTNOTE ([^ \n}]+)\}\}', text))
-    # a FOOTNOTE line is a block only if indented content follows it
+    # a FOOTNOTE line is a block only if an indented block follows it. Which lines form that block is decided by pre_parse itself
+    # (after a dedent that lands between two open levels, comparing indentation does not tell: F20), read off its INDENT / DEDENT lines
     blocks = Counter()
-    ls = text.replace('\t', '  ').strip().split('\n')   # pre_parse strips the text first: the first line's own indentation does not count
-    for i, l in enumerate(ls):
-        m = re.match(r'^( *)FOOTNOTE +([^ \n]+) *$', l)
-        if m:
-            nxt = next((x for x in ls[i + 1:] if x.strip()), None)
-            if nxt is not None and len(nxt) - len(nxt.lstrip(' ')) > len(m.group(1)):
-                blocks[m.group(2)] += 1
-                # a block that contains the reference to itself cannot be that reference's content (fix 13653fd):
-                # '(content missing)' is then the right answer, so this marker is left out of the clause
-                for x in ls[i + 1:]:
-                    if x.strip() and len(x) - len(x.lstrip(' ')) <= len(m.group(1)):
+    try:
+        pre = real.make_parser().pre_parse(text).split('\n')
+    except Exception:  # noqa
+        pre = []
+    IND, DED = '\x0e', '\x0f'
+    for i, l in enumerate(pre):
+        m = re.match(r'^FOOTNOTE +([^ \n]+)$', l)
+        if m and i + 1 < len(pre) and pre[i + 1] == IND:
+            blocks[m.group(1)] += 1
+            depth = 0
+            for x in pre[i + 1:]:
+                if x == IND:
+                    depth += 1
+                elif x == DED:
+                    depth -= 1
+                    if depth == 0:
                         break
-                    if '{{FOOTNOTE ' + m.group(2) + '}}' in x:
-                        blocks[m.group(2)] += 1
-                        break
+                elif '{{FOOTNOTE ' + m.group(1) + '}}' in x:
+                    # a block that contains the reference to itself cannot be that reference's content (fix 13653fd):
+                    # '(content missing)' is then the right answer, so this marker is left out of the clause
+                    blocks[m.group(1)] += 1
+                    break
 
     def notes_of(n, acc):
         if isinstance(n, str) or n[0] == 'meta':
